@@ -13,7 +13,7 @@ fn any_timer<const N: u8>() -> Timer<N> {
     }
 }
 
-// @verif id=DSP.timer props=C02,C07,C06,C10 tier=quick
+// @verif id=DSP.timer props=C02,C07,C06 tier=quick
 // @functions Timer::arm, Timer::expired, Timer::poll_at, Timer::take, Timer::set, Timer::turn_off
 // @bounds every timer state (idle, or armed at any microsecond instant < 2^32 us); any now < 2^32 us; any delay < 2^32 us; restart true/false
 // @asserts arm on idle or with restart: expires exactly at now+delay; arm without restart never POSTPONES an armed timer (expires' == min(old, now+delay)) - the delayed-ACK bound; expired <=> armed and expires_at <= now; poll_at is the expiry; take disarms and returns the old value; set/turn_off do what they say
@@ -80,7 +80,7 @@ fn any_state() -> VirtualSocketState {
     }
 }
 
-// @verif id=DSP.state props=C17,C08,C10 tier=quick
+// @verif id=DSP.state props=C17,C08 tier=quick
 // @functions VirtualSocketState::transition_to_fin_wait_1, VirtualSocketState::is_closed, VirtualSocketState::is_local_fin_or_later, VirtualSocketState::our_fin_if_unacked, VirtualSocketState::is_remote_fin_or_later
 // @bounds all 7 states with arbitrary payloads (counts, FIN numbers); wait_for_last_ack true/false; any our_fin
 // @asserts table transcribed from docs/states.dot: only SynReceived/SynAckSent/Established move to FinWait1 (carrying exactly the given FIN number), every other state is left alone; closed <=> Closed, or LastAck when not waiting for the last ACK; "local FIN or later" <=> FinWait1/FinWait2/LastAck/Closed; unacked own FIN exactly in FinWait1/LastAck; "remote FIN or later" <=> LastAck/Closed
@@ -124,7 +124,7 @@ fn any_header(t: Type) -> UtpHeader {
     }
 }
 
-// @verif id=DSP.args props=C13,C17,C09,C10 tier=quick
+// @verif id=DSP.args props=C13,C17,C09 tier=quick
 // @functions StreamArgs::new_incoming, StreamArgs::new_outgoing
 // @bounds every SYN header / every SYN-ACK header (all field values, incl. ids and sequence numbers at the 16-bit wrap); any initial sequence number; any timestamps
 // @asserts accepted side: receives on syn.id+1, sends on syn.id, first ACK acknowledges exactly the SYN's sequence number, own numbering starts at the chosen ISN, state SynReceived; initiating side: receives on the id the peer echoed, sends on id+1, next data is ack_nr+1, peer's numbering continues at seq_nr, state Established; all arithmetic wraps mod 2^16
